@@ -7,8 +7,8 @@ import ScrutModel.Model.MarkdownSpec
 copying every line outside scrut blocks (prose, front-matter, foreign code blocks; closed or running
 to the end of the document) **as it is, in order, terminated by LF**, and replacing every scrut
 block by a freshly fenced block that keeps language, inline configuration and the lines in front of
-the code; `k` counts the outcomes used so far.  With `strict = false` two more rules are allowed,
-which is what the code does to a front-matter without lines and to an unterminated one.
+the code; `k` counts the outcomes used so far.  With `strict = false` one more rule is allowed,
+which is what the code does to an unterminated front-matter.
 -/
 namespace Scrut.Update
 open Scrut.Markdown Scrut.LineParser
@@ -16,8 +16,8 @@ open Scrut.Markdown Scrut.LineParser
 /-- every line followed by LF -/
 def unlines (ls : List Line) : List Char := ls.flatMap (fun l => l ++ ['\n'])
 
-/-- the rewritten scrut block: fence + language + ` {config}` (if the fence line carried a non-empty
-`{…}`; white space after `{` dropped), the lines `head` in front of the code, the `body`, the fence -/
+/-- the rewritten scrut block: fence + language + ` {config}` (if the fence line carried a `{…}`
+that holds more than white space; white space after `{` dropped), the lines `head` in front of the code, the `body`, the fence -/
 def blockText (bt language config : Line) (head : List Line) (body : List Char) : List Char :=
   bt ++ language ++ configSuffix (cfgLines 0 config) ++ ['\n'] ++ unlines head ++ body ++ bt ++ ['\n']
 
@@ -47,25 +47,18 @@ inductive Rewritten (L : List Line) (gens : List (Option (List Char))) (strict :
       extractCodeBlockStart l = .ok none →
       Rewritten L gens strict k rest out →
       Rewritten L gens strict k (l :: rest) (l ++ '\n' :: out)
-  /-- front-matter with at least one line, closed: kept -/
+  /-- front-matter, closed (with or without lines): kept -/
   | front (k body rest out) :
-      (∀ x ∈ body, x ≠ frontMatterFence) → body ≠ [] →
+      (∀ x ∈ body, x ≠ frontMatterFence) →
       Rewritten L gens strict k rest out →
       Rewritten L gens strict k (frontMatterFence :: (body ++ frontMatterFence :: rest))
         (unlines (frontMatterFence :: (body ++ [frontMatterFence])) ++ out)
-  /-- DEVIATION: `---`, `---` gains an empty line -/
-  | frontEmpty (k rest out) :
-      strict = false →
-      Rewritten L gens strict k rest out →
-      Rewritten L gens strict k (frontMatterFence :: frontMatterFence :: rest)
-        (unlines [frontMatterFence, [], frontMatterFence] ++ out)
-  /-- DEVIATION: front-matter that is never closed gains a closing `---` (and an empty line if it
-  has no lines) -/
+  /-- DEVIATION: front-matter that is never closed gains a closing `---` -/
   | frontOpen (k body) :
       strict = false →
       (∀ x ∈ body, x ≠ frontMatterFence) →
       Rewritten L gens strict k (frontMatterFence :: body)
-        (unlines (frontMatterFence :: ((if body.isEmpty then [[]] else body) ++ [frontMatterFence])))
+        (unlines (frontMatterFence :: (body ++ [frontMatterFence])))
   /-- a code block in another language, closed or running to the end: kept -/
   | foreign (k opener bt language config body closer rest out) :
       extractCodeBlockStart opener = .ok (some (bt, language, config)) →
@@ -83,19 +76,24 @@ inductive Rewritten (L : List Line) (gens : List (Option (List Char))) (strict :
       Rewritten L gens strict k' rest out →
       Rewritten L gens strict k (opener :: (body ++ (closer.toList ++ rest))) (blockOut ++ out)
 
-/-- guard of the strict reading: every front-matter has at least one line and its last line is not
-the last line of the document (`n` lines) -/
-def frontOk (n : Nat) : Tok → Bool
-  | .docConfig ls =>
-    match ls.getLast? with
-    | some (j, _) => decide (j + 1 < n)
-    | none => false
-  | _ => true
+/-- number of document lines a token spans when it is closed -/
+def tokSpan : Tok → Nat
+  | .line _ _ => 1
+  | .docConfig ls => ls.length + 2
+  | .verbatim _ _ ls => ls.length
+  | .test _ _ comments code => comments.length + code.length + 2
+
+/-- guard of the strict reading: every front-matter is closed, i.e. its closing `---` is a line of
+the document (`n` lines; `pos` = index of the first line of the first token) -/
+def frontClosed (n : Nat) : Nat → List Tok → Bool
+  | _, [] => true
+  | pos, .docConfig ls :: r => decide (pos + ls.length + 2 ≤ n) && frontClosed n (pos + ls.length + 2) r
+  | pos, t :: r => frontClosed n (pos + tokSpan t) r
 
 /-- the same texts, whatever the line numbers: what `update` can see of a token -/
 def sameTexts : Tok → Tok → Prop
   | .line _ l, .line _ l' => l = l'
-  | .docConfig ls, .docConfig ls' => joinNumbered ls = joinNumbered ls'
+  | .docConfig ls, .docConfig ls' => ls.map (·.2) = ls'.map (·.2)
   | .verbatim _ _ ls, .verbatim _ _ ls' => ls = ls'
   | .test lang cfg cm cd, .test lang' cfg' cm' cd' =>
     lang = lang' ∧ configSuffix cfg = configSuffix cfg' ∧ cm.map (·.2) = cm'.map (·.2) ∧ (cd.isEmpty = cd'.isEmpty)
